@@ -10,8 +10,10 @@
 //           res = ok:<upper>,<lower> | err:zero | err:gt1 | err:16 | err:other | panic
 //           pp/theta/pow: float64 bit patterns of 1-c, 1/n and math.Pow(1-c, 1/n) as the harness
 //           recomputes them (the oracle for the model's pow64); "-" when c1 or c2 is 0
-//           acc = 1 | 0 : |threshold/2^128 - (1-(1-c)^(1/n))| <= 2^-50 against a 512-bit
-//           big.Float evaluation (c the float64 ratio, 1/n exact); "-" when not evaluated
+//           acc = a<k> : the distance |threshold/2^128 - (1-(1-c)^(1/n))| against a 512-bit
+//           big.Float evaluation (c the float64 ratio, 1/n exact) is at most 2^-k and, unless
+//           k = 80 (the cap), more than 2^-(k+1); k < 50 is a failure (C25_error_bound gives
+//           eps + 2^-51 + 2^-128 with eps the error of math.Pow); "-" when not evaluated
 //   mono -> the two thr observables (10 fields)
 //   prim -> <0|1> <res hex16>   result of checkPrimaryThreshold and the 16 VRF in/out bytes
 //           the harness obtains from AttachInput/MakeBytes itself; or err
@@ -99,11 +101,18 @@ func c25Acc(res string, c float64, n int) string {
 	want := new(big.Float).SetPrec(prec).Sub(one, c25Root(x, int64(n)))
 	d := new(big.Float).SetPrec(prec).Sub(got, want)
 	d.Abs(d)
-	bound := new(big.Float).SetPrec(prec).SetMantExp(one, -50)
-	if d.Cmp(bound) <= 0 {
-		return "1"
+	// the largest k <= 80 with d <= 2^-k
+	k := 80
+	if d.Sign() != 0 {
+		k = -d.MantExp(nil) // d = m * 2^e with 0.5 <= m < 1: d <= 2^e, d > 2^(e-1)
+		if k > 80 {
+			k = 80
+		}
+		if k < 0 {
+			k = 0
+		}
 	}
-	return "0"
+	return fmt.Sprintf("a%d", k)
 }
 
 func c25Thr(c1, c2 uint64, n int) string {
